@@ -438,6 +438,53 @@ def find_loops(body: str) -> List[Tuple[str, int, int]]:
     return res
 
 
+def split_statements(body: str) -> List[Tuple[int, int]]:
+    """Top-level statements of a fn body `{ ... }`: returns (start, end) offsets
+    into `body`.  A statement ends at a `;` at depth 1, or at the `}` of a
+    block-like statement (if / for / while / loop / match / unsafe / plain
+    block) that is not continued by `else`, a method call, `?` or an operator.
+    The trailing expression (if any) is the last entry."""
+    mask = mask_source(body)
+    n = len(mask)
+    res = []
+    i = 1
+    end_body = n - 1
+    start = None
+    while i < end_body:
+        ch = mask[i]
+        if start is None:
+            if ch.isspace():
+                i += 1
+                continue
+            start = i
+        if ch in '([':
+            i = match_close(mask, i) + 1
+            continue
+        if ch == '{':
+            j = match_close(mask, i)
+            k = j + 1
+            while k < end_body and mask[k].isspace():
+                k += 1
+            nxt = mask[k:k + 4]
+            first_word = re.match(r'[A-Za-z_]\w*', mask[start:])
+            blocklike = first_word is not None and first_word.group(0) in ('if', 'for', 'while', 'loop', 'match', 'unsafe') or mask[start] == '{'
+            if blocklike and not (nxt.startswith('else') or nxt[:1] in '.?;=+-*/&|<>,)' ):
+                res.append((start, j + 1))
+                start = None
+            i = j + 1
+            continue
+        if ch == ';':
+            res.append((start, i + 1))
+            start = None
+        i += 1
+    if start is not None:
+        e = end_body
+        while e > start and mask[e - 1].isspace():
+            e -= 1
+        res.append((start, e))
+    return res
+
+
 if __name__ == '__main__':
     import sys
     sf = SourceFile(sys.argv[1])
